@@ -163,6 +163,31 @@ def do(op: dict) -> str:
         SOLVERS[op["sid"]] = (kind, sv)
         hdr = f"n={p.n_states} maxbs={op['maxbs']} dev={sv.n_devices} bsz={sv.batch_size} npad={sv.n_pad} "
         return hdr + f"ok thr={frac(Fraction(float(sv.conv_threshold)))} " + state_line(kind, sv, False, 0, [])
+    if o == "semisweep":
+        p = PROBLEMS[op["id"]]
+        key = (op["id"], op["maxbs"], "semi", op.get("shuffle", 0), op.get("random_seed", 0))
+        if key not in SWEEPERS:
+            SWEEPERS[key] = solver_class("semi")(p, gamma=0.5, epsilon=0.01, max_batch_size=op["maxbs"], verbose=0,
+                                                 shuffle_states=bool(op.get("shuffle", 0)), random_seed=op.get("random_seed", 0))
+        sv = SWEEPERS[key]
+        g = jnp.array(float(Fraction(op["gamma"])))
+        V = jnp.array([float(Fraction(x)) for x in op["V"]], dtype=jnp.float64)
+        n0 = len(getattr(sv, "_verif_permutations", []))
+        key_before = np.asarray(jax.random.key_data(sv.key)) if hasattr(jax.random, "key_data") else np.asarray(sv.key)
+        new = sv._update_values(sv.batched_states, p.action_space, p.random_event_space, g, V)
+        perms = getattr(sv, "_verif_permutations", [])[n0:]
+        perm = perms[0] if perms else None
+        # independent recomputation of the permutation from the key held before the sweep: one split, nothing else consumes it
+        recomputed = "_"
+        if op.get("shuffle", 0):
+            import jax.random as jr
+            k2, sub = jr.split(jnp.asarray(key_before, dtype=jnp.uint32))
+            recomputed = ",".join(str(int(x)) for x in np.asarray(jr.permutation(sub, jnp.arange(p.n_states))))
+            if not (np.asarray(sv.key) == np.asarray(k2)).all():
+                recomputed += "!key-mismatch"
+        assert new.shape == (p.n_states,)
+        return (f"n={p.n_states} maxbs={op['maxbs']} dev={sv.n_devices} npad={sv.n_pad} values={fvals(new)} "
+                f"perm={'_' if perm is None else ','.join(str(int(x)) for x in perm)} recomputed={recomputed}")
     if o == "evaluate":
         p = PROBLEMS[op["id"]]
         key = (op["id"], op["maxbs"], op["test"], op["gamma"], op["eps"], op["budget"])
